@@ -189,3 +189,42 @@ theorem overlay_as_found_counterexample :
   ⟨[(1, "a")], [.bad 1], by simp [Sorted], by decide⟩
 
 end IdenaModel.Store
+
+namespace IdenaModel.Store
+
+/-- **C13 (store part) with batch objects**: staging, reading in between, writing and abandoning batches in any
+interleaving — the copy-on-write store still answers like the ordinary pre-loaded store. -/
+theorem overlay_refines_staged (perm : KV) (hs : Sorted perm) (ops : List XOp) :
+    xrun Overlay.step ⟨Overlay.init perm, none⟩ ops = xrun plainStep ⟨perm, none⟩ ops := by
+  suffices h : ∀ (o : Overlay) (m : KV) (st : Option (List BOp)), Sim o m →
+      xrun Overlay.step ⟨o, st⟩ ops = xrun plainStep ⟨m, st⟩ ops from h _ _ _ (sim_init hs)
+  induction ops with
+  | nil => intros; rfl
+  | cons x xs ih =>
+    intro o m st hsim
+    cases x with
+    | op op =>
+      have := step_sim hsim op
+      simp only [xrun, xstep, this.1]
+      exact congrArg _ (ih _ _ _ this.2)
+    | bnew => simp only [xrun, xstep]; exact congrArg _ (ih _ _ _ hsim)
+    | bstage b =>
+      cases st with
+      | none => simp only [xrun, xstep]; exact congrArg _ (ih _ _ _ hsim)
+      | some l => simp only [xrun, xstep]; exact congrArg _ (ih _ _ _ hsim)
+    | bwrite =>
+      cases st with
+      | none => simp only [xrun, xstep]; exact congrArg _ (ih _ _ _ hsim)
+      | some l =>
+        have := step_sim hsim (.batch l)
+        simp only [xrun, xstep, this.1]
+        exact congrArg _ (ih _ _ _ this.2)
+    | bclose => simp only [xrun, xstep]; exact congrArg _ (ih _ _ _ hsim)
+
+/-- staged entries are invisible until written: a read between staging and `Write` answers as if the batch did
+not exist -/
+theorem staged_invisible (o : Overlay) (l : List BOp) (b : BOp) (k : Nat) :
+    ((xstep Overlay.step (xstep Overlay.step ⟨o, some l⟩ (.bstage b)).1 (.op (.get k))).2) = .val (o.get k) := by
+  simp [xstep, Overlay.step]
+
+end IdenaModel.Store
